@@ -429,16 +429,27 @@ Proof.
     split; [reflexivity | apply cache_in_put; auto].
 Qed.
 
-Lemma load_all_render s l : keys_in s -> (forall e, In e l -> In (fst e) K) -> forall c, cache_in c ->
-  load_all (render_cache c) (render_fs s) (map render_ent l)
-  = (render_cache (fst (sload_all c s l)), snd (sload_all c s l)) /\ cache_in (fst (sload_all c s l)).
+Lemma load_first_render s l : keys_in s -> (forall e, In e l -> In (fst e) K) -> forall c, cache_in c ->
+  load_first (render_cache c) (render_fs s) (map render_ent l)
+  = (render_cache (fst (sload_first c s l)), snd (sload_first c s l)) /\ cache_in (fst (sload_first c s l)).
 Proof.
   intros KI. induction l as [|e l IH]; intros H c CI; simpl; auto.
   unfold e_dir, e_name. simpl.
   destruct (load_latest_render c s (fst e)) as [E CI']; auto. { apply H; simpl; auto. }
+  rewrite E. destruct (sload_latest c s (fst e)) as [c' [p|]]; simpl in *; auto.
+Qed.
+
+Lemma load_upto_render s l : keys_in s -> (forall e, In e l -> In (fst e) K) -> forall n c, cache_in c ->
+  load_upto (render_cache c) (render_fs s) (map render_ent l) n
+  = (render_cache (fst (sload_upto c s l n)), snd (sload_upto c s l n)) /\ cache_in (fst (sload_upto c s l n)).
+Proof.
+  intros KI. induction l as [|e l IH]; intros H n c CI; simpl; auto.
+  destruct n as [|n']; simpl; auto.
+  unfold e_dir, e_name. simpl.
+  destruct (load_latest_render c s (fst e)) as [E CI']; auto. { apply H; simpl; auto. }
   rewrite E. destruct (sload_latest c s (fst e)) as [c' [p|]]; simpl in *.
-  - destruct (IH (fun x Hx => H x (or_intror Hx)) c' CI') as [E2 CI2]. rewrite E2.
-    destruct (sload_all c' s l) as [c'' ps]; simpl in *. auto.
+  - destruct (IH (fun x Hx => H x (or_intror Hx)) n' c' CI') as [E2 CI2]. rewrite E2.
+    destruct (sload_upto c' s l n') as [c'' ps]; simpl in *. auto.
   - apply IH; auto.
 Qed.
 
@@ -453,12 +464,8 @@ Lemma latest_of_render c s l : keys_in s -> cache_in c -> (forall e, In e l -> I
   = (render_cache (fst (slatest_of c s l)), snd (slatest_of c s l)) /\ cache_in (fst (slatest_of c s l)).
 Proof.
   intros KI CI H. unfold latest_of, slatest_of. destruct l as [|e0 l0]; simpl map; auto.
-  rewrite <- (map_cons render_ent), filter_latest_render by auto.
-  destruct (sfilter_latest (e0 :: l0) 1) as [|e r] eqn:F; unfold sent in *; rewrite ?F; simpl; auto.
-  unfold e_dir, e_name. simpl.
-  destruct (load_latest_render c s (fst e)) as [E CI']; auto.
-  { apply H. apply (sfilter_latest_in _ 1). rewrite F. simpl; auto. }
-  rewrite E. destruct (sload_latest c s (fst e)) as [c' [p|]]; simpl in *; auto.
+  rewrite <- (map_cons render_ent), filter_latest_render by auto. rewrite map_length.
+  apply load_first_render; auto. intros e He. apply H. eapply sfilter_latest_in; eauto.
 Qed.
 
 Lemma recent_of_render c s l n : keys_in s -> cache_in c -> (forall e, In e l -> In (fst e) K) ->
@@ -466,10 +473,9 @@ Lemma recent_of_render c s l n : keys_in s -> cache_in c -> (forall e, In e l ->
   = (render_cache (fst (srecent_of c s l n)), snd (srecent_of c s l n)) /\ cache_in (fst (srecent_of c s l n)).
 Proof.
   intros KI CI H. unfold recent_of, srecent_of. destruct l as [|e0 l0]; simpl map; auto.
-  rewrite <- (map_cons render_ent), filter_latest_render by auto.
-  apply load_all_render; auto. intros e He. apply H. eapply sfilter_latest_in; eauto.
+  rewrite <- (map_cons render_ent), filter_latest_render by auto. rewrite map_length.
+  apply load_upto_render; auto. intros e He. apply H. eapply sfilter_latest_in; eauto.
 Qed.
-
 
 (* ---- operations ----------------------------------------------------------------------------------------- *)
 (* K is closed under the compaction twin and under re-keying to the DAGs of D (decidable) *)
